@@ -827,6 +827,141 @@ Definition p_prefj_owner : list instr := [
   (*25*) IUnlock OWN;
   (*26*) IEnd ].
 
+(* ---- wave 7.  "poolre": the ThreadPool scenario where the first r closures handed in by the owner are two-stage jobs:
+   when run on a worker they call Execute() on the same pool (ThreadPool::Execute: lock, test m_shutdown (warning only),
+   push, Signal, unlock) -- possibly after JoinAll() has set m_shutdown; the follow-up must still be run exactly once
+   before JoinAll() returns.  The follow-up closure is (worker id, per-worker counter).
+   "futasg": language-level operations on Future handles by the owner thread, with a setter thread holding a copy:
+   f = f (self-assignment of a sole owner: no operation at all); Future g(f); g = f (distinct handles, same state);
+   Future h; h = f (assign over a live sole-owner state: that state, object 3, is freed); std::swap(g, h)
+   (copy, two assignments, destructor); copy for the setter; Get(); ~h ~g ~f; the last DeRef frees object 1. *)
+Definition FM3 := 24.  Definition REF3 := 24.
+Definition p_poolre_worker_a : list instr := [
+  (* 0*) ILock TMA;
+  (* 1*) IWr RUNA 1;
+  (* 2*) IUnlock TMA;
+  (* 3*) ISignal TCA;
+  (* 4*) ILock PLM;
+  (* 5*) IBrEmpty PQ 16;
+  (* 6*) IPop PQ;
+  (* 7*) IUnlock PLM;
+  (* 8*) IRunB 14;
+  (* 9*) ILock PLM;
+  (*10*) IBrVar PSHUT 1 11;
+  (*11*) IPushR PQ;
+  (*12*) ISignal PLC;
+  (*13*) IUnlock PLM;
+  (*14*) ILock PLM;
+  (*15*) IJmp 5;
+  (*16*) IBrVar PSHUT 1 19;
+  (*17*) IWait PLC PLM;
+  (*18*) IJmp 5;
+  (*19*) IUnlock PLM;
+  (*20*) IEnd ].
+Definition p_poolre_worker_b : list instr := [
+  (* 0*) ILock TMB;
+  (* 1*) IWr RUNB 1;
+  (* 2*) IUnlock TMB;
+  (* 3*) ISignal TCB;
+  (* 4*) ILock PLM;
+  (* 5*) IBrEmpty PQ 16;
+  (* 6*) IPop PQ;
+  (* 7*) IUnlock PLM;
+  (* 8*) IRunB 14;
+  (* 9*) ILock PLM;
+  (*10*) IBrVar PSHUT 1 11;
+  (*11*) IPushR PQ;
+  (*12*) ISignal PLC;
+  (*13*) IUnlock PLM;
+  (*14*) ILock PLM;
+  (*15*) IJmp 5;
+  (*16*) IBrVar PSHUT 1 19;
+  (*17*) IWait PLC PLM;
+  (*18*) IJmp 5;
+  (*19*) IUnlock PLM;
+  (*20*) IEnd ].
+Definition p_fut_asg : list instr := [
+  (* 0*) ILock FM;
+  (* 1*) IInc REF;
+  (* 2*) IUnlock FM;
+  (* 3*) ILock FM;
+  (* 4*) IDec REF;
+  (* 5*) IUnlock FM;
+  (* 6*) IBrReg 0 8;
+  (* 7*) IJmp 9;
+  (* 8*) IFree 1;
+  (* 9*) ILock FM;
+  (*10*) IInc REF;
+  (*11*) IUnlock FM;
+  (*12*) ILock FM3;
+  (*13*) IDec REF3;
+  (*14*) IUnlock FM3;
+  (*15*) IBrReg 0 17;
+  (*16*) IJmp 18;
+  (*17*) IFree 3;
+  (*18*) ILock FM;
+  (*19*) IInc REF;
+  (*20*) IUnlock FM;
+  (*21*) ILock FM;
+  (*22*) IInc REF;
+  (*23*) IUnlock FM;
+  (*24*) ILock FM;
+  (*25*) IDec REF;
+  (*26*) IUnlock FM;
+  (*27*) IBrReg 0 29;
+  (*28*) IJmp 30;
+  (*29*) IFree 1;
+  (*30*) ILock FM;
+  (*31*) IInc REF;
+  (*32*) IUnlock FM;
+  (*33*) ILock FM;
+  (*34*) IDec REF;
+  (*35*) IUnlock FM;
+  (*36*) IBrReg 0 38;
+  (*37*) IJmp 39;
+  (*38*) IFree 1;
+  (*39*) ILock FM;
+  (*40*) IInc REF;
+  (*41*) IUnlock FM;
+  (*42*) ILock FM;
+  (*43*) IDec REF;
+  (*44*) IUnlock FM;
+  (*45*) IBrReg 0 47;
+  (*46*) IJmp 48;
+  (*47*) IFree 1;
+  (*48*) ILock FM;
+  (*49*) IInc REF;
+  (*50*) IUnlock FM;
+  (*51*) ICreateI 1;
+  (*52*) ILock FM;
+  (*53*) IBrVar ISSET 1 56;
+  (*54*) IWait FC FM;
+  (*55*) IJmp 53;
+  (*56*) ILd VALUE;
+  (*57*) IUnlock FM;
+  (*58*) IOut OUT_GET;
+  (*59*) ILock FM;
+  (*60*) IDec REF;
+  (*61*) IUnlock FM;
+  (*62*) IBrReg 0 64;
+  (*63*) IJmp 65;
+  (*64*) IFree 1;
+  (*65*) ILock FM;
+  (*66*) IDec REF;
+  (*67*) IUnlock FM;
+  (*68*) IBrReg 0 70;
+  (*69*) IJmp 71;
+  (*70*) IFree 1;
+  (*71*) ILock FM;
+  (*72*) IDec REF;
+  (*73*) IUnlock FM;
+  (*74*) IBrReg 0 76;
+  (*75*) IJmp 77;
+  (*76*) IFree 1;
+  (*77*) IRst 1;
+  (*78*) IJoinI 1;
+  (*79*) IEnd ].
+
 Definition P : programs := fun id =>
   match id with
   | 0 => p_exec_main | 1 => p_consumer | 2 => p_producer
@@ -838,6 +973,7 @@ Definition P : programs := fun id =>
   | 16 => p_pool_owner | 17 => p_pool_worker_a | 18 => p_pool_worker_b
   | 19 => p_lock_owner | 20 => p_lock_cont | 21 => p_ssd_main | 22 => p_pref_owner | 23 => p_pref_saver
   | 24 => p_term_owner | 25 => p_term_p1 | 26 => p_term_p2 | 27 => p_pref2_owner | 28 => p_pref2_helper | 29 => p_prefj_owner
+  | 30 => p_poolre_worker_a | 31 => p_poolre_worker_b | 32 => p_fut_asg
   | _ => []
   end.
 
@@ -946,6 +1082,20 @@ Definition init_pool (n : nat) : state :=
                          | 2 => mk_thread 18 NotStarted 0 | _ => dummy end)
     (fun _ => 0)
     (fun k => match k with 0 => n | _ => 0 end).
+
+(* n closures from the owner, the first r of them re-submit a follow-up to the pool when they are run *)
+Definition init_poolre (n r : nat) : state :=
+  base_state 3
+    (fun t => match t with 0 => mk_thread 16 Fresh 0 | 1 => mk_thread 30 NotStarted 0
+                         | 2 => mk_thread 31 NotStarted 0 | _ => dummy end)
+    (fun _ => 0)
+    (fun k => match k with 0 => n | 100 => r | _ => 0 end).
+
+Definition init_fut_asg : state :=
+  base_state 2
+    (fun t => match t with 0 => mk_thread 32 Fresh 0 | 1 => mk_thread 7 NotStarted 0 | _ => dummy end)
+    (fun x => if Nat.eqb x REF then 1 else if Nat.eqb x REF3 then 1 else 0)
+    (fun _ => 0).
 
 Definition init_locker : state :=
   base_state 3
